@@ -3,7 +3,8 @@
 name=$1; prop=$2; tier=${3:-quick}
 wt=/tmp/wt_run_$name
 git -C /repo worktree add -q --detach $wt HEAD || exit 2
-git -C $wt apply /verif/seeded/$name/patch.diff || { echo "$name: patch does not apply"; git -C /repo worktree remove --force $wt; exit 2; }
+# the patch was made against an earlier commit of /repo; later "fix:" commits may have moved its context: fall back to a 3-way apply
+git -C $wt apply /verif/seeded/$name/patch.diff 2>/dev/null || git -C $wt apply --3way /verif/seeded/$name/patch.diff 2>/dev/null || { echo "$name: patch does not apply"; git -C /repo worktree remove --force $wt; exit 2; }
 cd /verif && SYNKIT_REPO=$wt PYTHONPATH=$wt VERIF_EVIDENCE_OUT=/tmp/ev_$name.json timeout 1500 ./check $prop --tier $tier > /tmp/seedrun_$name.log 2>&1; rc=$?
 git -C /repo worktree remove --force $wt
 rm -rf /tmp/ev_$name.json /tmp/ev_$name.json.replays
